@@ -481,7 +481,18 @@ pub fn run<P: Property>(args: &RunArgs) -> i32 {
     let mut outs: Vec<ShardOut<P::Case>> = Vec::new();
     let hang: Arc<Mutex<Option<(u64, Value)>>> = Arc::new(Mutex::new(None));
 
+    // Whatever happens in the scope below (including a panic while joining a
+    // shard), the watchdog thread must be told to stop, or the scope would
+    // wait for it forever.
+    struct DoneGuard(Arc<AtomicBool>);
+    impl Drop for DoneGuard {
+        fn drop(&mut self) {
+            self.0.store(true, Ordering::Relaxed);
+        }
+    }
+
     std::thread::scope(|sc| {
+        let _done_guard = DoneGuard(done.clone());
         // watchdog
         {
             let slots = slots.clone();
@@ -657,7 +668,20 @@ pub fn run<P: Property>(args: &RunArgs) -> i32 {
                 // handle the hang outside (process exits there)
                 handle_hang::<P>(args, &hang);
             }
-            outs.push(h.join().unwrap());
+            match h.join() {
+                Ok(o) => outs.push(o),
+                Err(_) => {
+                    // a panic outside the guarded check, e.g. inside a
+                    // generator: infrastructure error, never a verdict
+                    let (m, l) = take_last_panic();
+                    outs.push(ShardOut {
+                        stats: Stats::default(),
+                        failure: None,
+                        harness_bug: Some(format!("shard panicked outside the check at {l}: {m}")),
+                        aborted: None,
+                    });
+                }
+            }
         }
         done.store(true, Ordering::Relaxed);
     });
